@@ -52,7 +52,8 @@ class World:
                 return (tuple(acc), tuple(opts["k"]))
         self.func = work
         self.bound_obj = []
-        node = FunctionNode(work, name="work", output_name="out")
+        # shape "sink": a side-effect-only node (no outputs), like a logger or a gate, still gets fresh defaults
+        node = FunctionNode(work, name="work") if shape.get("sink") else FunctionNode(work, name="work", output_name="out")
         bind_at = shape.get("bind_at", "outer") if nested else "outer"
         side = FunctionNode(lambda mark: ("side", mark), name="side", output_name="side_out")
         with warnings.catch_warnings():
@@ -64,9 +65,12 @@ class World:
                 gn = inner.as_node()
                 if bind_at == "inner_renamed":
                     gn = gn.with_inputs(store="book")                # ... and is exposed under another name
+                if shape.get("mapped") and shape.get("swap"):
+                    # the mapped input and the default-valued parameter exchange their names on the wrapper (one call)
+                    gn = gn.with_inputs(inp="acc", acc="inp")
                 if shape.get("mapped"):
                     cl = shape.get("clone")
-                    gn = gn.map_over("inp", "mark", clone=list(cl) if isinstance(cl, list) else bool(cl))   # every item is a run of the nested graph
+                    gn = gn.map_over("acc" if shape.get("swap") else "inp", "mark", clone=list(cl) if isinstance(cl, list) else bool(cl))   # every item is a run of the nested graph
                 g = Graph([gn] + ([side] if shape.get("side") else []))
             else:
                 g = Graph([node] + ([side] if shape.get("side") else []))
@@ -143,7 +147,7 @@ def replay_sync(order, nested, modes, same_runner, shape=None):
 
 def verdicts(ctx, w, inputs, results, wit):
     runs = sorted(r for r in results)
-    narrowed = bool(w.shape.get("side") and w.shape.get("select_side"))
+    narrowed = bool(w.shape.get("side") and w.shape.get("select_side")) or bool(w.shape.get("sink"))
     d0 = w.func.__defaults__
     if d0[0] != [] or d0[1] != {"k": []}:
         ctx.violation("signature-default-mutated", wit, f"the function's own default objects now hold {d0}")
@@ -159,7 +163,7 @@ def verdicts(ctx, w, inputs, results, wit):
         if got != ((r,), (r,)):
             ctx.violation("state-leaked-between-runs", wit, f"run {r} returned {got}, alone it returns {((r,), (r,))}")
             return
-        if narrowed and set(res.values) != {"side_out"}:
+        if narrowed and not set(res.values) <= {"side_out"}:
             raise RuntimeError(f"harness: narrowed graph returned {sorted(res.values)}")
         if rec["acc_id"] == id(d0[0]) or rec["opts_id"] == id(d0[1]):
             ctx.violation("default-not-copied", wit, f"run {r} received the function's own default object")
@@ -182,14 +186,14 @@ def verdicts(ctx, w, inputs, results, wit):
         ctx.violation("bound-object-not-shared", wit, f"bound object holds {w.bound_obj}, expected the marks of all runs {runs}")
 
 
-def replay_mapped(n, is_async, bind_at, via_runner_map, clone=False):
+def replay_mapped(n, is_async, bind_at, via_runner_map, clone=False, swap=False):
     """The items of a map are runs of the mapped graph (sequential history 1..n of Isolation.tla):
     a mapping GraphNode (zip over inp/mark) or runner.map over the same nested graph."""
-    w = World(True, False, {"bind_at": bind_at, "mapped": not via_runner_map, "clone": clone})
+    w = World(True, False, {"bind_at": bind_at, "mapped": not via_runner_map, "clone": clone, "swap": swap and not via_runner_map})
     marks = list(range(1, n + 1))
     inps = [[] for _ in marks]
     w.aux, w.aux2 = ["aux"], ["aux2"]          # broadcast values owned by the caller
-    values = {"inp": inps, "mark": marks, "aux": w.aux, "aux2": w.aux2}
+    values = {("acc" if swap and not via_runner_map else "inp"): inps, "mark": marks, "aux": w.aux, "aux2": w.aux2}
     runner = AsyncRunner() if is_async else SyncRunner()
     if via_runner_map:
         call = runner.map(w.graph, values, map_over=["inp", "mark"], clone=clone, on_internal_override="ignore")
@@ -271,7 +275,7 @@ def run(tier, seed):
         sched = [(op, int(r)) for op, r in s]
         for nested in (False, True):
             same = rng.random() < 0.5
-            shape = {"bind_at": rng.choice(["outer", "inner", "inner_renamed"]), "side": rng.random() < 0.5,
+            shape = {"bind_at": rng.choice(["outer", "inner", "inner_renamed"]), "side": rng.random() < 0.5, "sink": rng.random() < 0.2,
                      "select_side": rng.random() < 0.6, "call": rng.choice(["dict", "dict", "mixed", "kwargs"])}
             ctx.bump("shape:" + (shape["bind_at"] if nested else "flat") + ("+narrowed" if shape["side"] and shape["select_side"] else "") + "/" + shape["call"])
             wit = {"schedule": s, "nested": nested, "same_runner": same, "runner": "async", "shape": shape}
@@ -302,8 +306,9 @@ def run(tier, seed):
                     for clone in (False, True, ["aux2"]):
                         if clone is True and bind_at == "outer" and not via:
                             continue      # clone=True asks for copies of ALL broadcast values of the mapping node; a value bound on the OUTER graph is one of them
-                        wit = {"items": n, "runner": "async" if is_async else "sync", "bind_at": bind_at, "via": "runner.map" if via else "mapping GraphNode", "clone": clone}
-                        out = replay_mapped(n, is_async, bind_at, via, clone)
+                        swap = (not via) and clone is False and (n + len(bind_at)) % 2 == 0
+                        wit = {"items": n, "runner": "async" if is_async else "sync", "bind_at": bind_at, "via": "runner.map" if via else "mapping GraphNode", "clone": clone, "swap": swap}
+                        out = replay_mapped(n, is_async, bind_at, via, clone, swap)
                         ctx.count()
                         ctx.traces()
                         ctx.distinct(json.dumps(wit, sort_keys=True))
